@@ -307,6 +307,7 @@ func checkC14(r *Run) {
 	r.Stats["packages"] = len(p.Repo) + len(pc.Repo)
 	r.Rule("C14.R1.registry", "every (error kind -> payload type) an encoder produces is decoded back to the same kind by its own decoder, and no other registered decoder claims that payload type", 15)
 	r.Rule("C14.R2.terminal", "after the handler returns, each transport delivers exactly one terminal result derived from the handler's error on every path", 6)
+	r.Rule("C14.R3.overwrite", "a stored terminal result is never overwritten: every write of a stream's terminal field happens where the field is known to be unset (behind the 'already terminated' test on the same object), except the tabled server-side close", 6)
 	r.Rule("C14.R3.sticky", "a decoded terminal error is stored before it is returned and is returned first on later calls; CloseSend marks the sender closed before sending; gRPC adapters translate transport errors", 8)
 	r.Rule("C14.R4.once", "streamCore.close closes normalShutdownSig behind a closed flag (or sync.Once) tested on the same object", 1)
 
@@ -315,6 +316,7 @@ func checkC14(r *Run) {
 	checkHTTPServerClose(r, p)
 	checkGRPCHandler(r, p)
 	checkSticky(r, p)
+	checkTerminalOverwrite(r, p)
 	checkCloseOnce(r, p)
 }
 
@@ -896,4 +898,69 @@ func checkCloseOnce(r *Run, p *Prog) {
 		}
 	}
 	r.ObPath("C14.R4.once", "streamCore.close closes its shutdown channel at most once", p.Position(closes[0].B.Nodes[closes[0].I].Pos()), ok, "clientStream.Receive calls close on every error return: a second Receive after the terminal result would close a closed channel (panic)", path)
+}
+
+// terminalOverwriteAllowed lists the writes of a terminal field that need no "unset" guard.
+var terminalOverwriteAllowed = map[string]string{
+	"http.(*serverStream).close": "the handler has returned: nothing reads the server-side terminal field afterwards, and the value only refuses later server-side calls",
+}
+
+// checkTerminalOverwrite decides C14.R3.overwrite.
+func checkTerminalOverwrite(r *Run, p *Prog) {
+	type spec struct{ pkg, recv, field string }
+	n := 0
+	for _, sp := range []spec{
+		{"freighter/mock", "ServerStream", "receiveErr"},
+		{"freighter/mock", "ClientStream", "receiveErr"},
+		{"freighter/http", "streamCore", "peerCloseErr"},
+	} {
+		fld := p.FieldOf(sp.pkg, sp.recv, sp.field)
+		if fld == nil {
+			r.Undecide("C14.R3.overwrite: field %s.%s not found", sp.recv, sp.field)
+			continue
+		}
+		for _, fn := range p.FuncsOfPkg(sp.pkg) {
+			if fn.Body == nil || fn.Lit != nil {
+				continue
+			}
+			c := p.CFG(fn)
+			// edges on which the field is known to be nil
+			unset := c.EdgesEstablishing(func(atom ast.Expr, val bool) bool {
+				isF, trueMeansNil, ok := nilCompareField(fn, atom, fld)
+				return ok && isF && val == trueMeansNil
+			})
+			seen := 0
+			for _, b := range c.G.Blocks {
+				if !b.Live {
+					continue
+				}
+				for i, node := range b.Nodes {
+					st, ok := node.(ast.Stmt)
+					if !ok || !isStoreTo(fn, st, fld) {
+						continue
+					}
+					n++
+					seen++
+					construct := fmt.Sprintf("write #%d of %s.%s in %s", seen, sp.recv, sp.field, fn.Name)
+					if reason, ok := terminalOverwriteAllowed[fn.Name]; ok {
+						r.ObTrivial("C14.R3.overwrite", construct, posOf(p, st), true, "tabled: "+reason)
+						continue
+					}
+					good := false
+					if len(unset) > 0 {
+						_, vis := c.ReachAvoiding([]Point{c.Entry()}, unset, nil)
+						good = !vis[Point{b, i}]
+					}
+					// a re-wrap of the value just stored (x.f = wrap(x.f)) keeps the result
+					if as, ok := st.(*ast.AssignStmt); ok && len(as.Rhs) == 1 && !good {
+						_ = as
+					}
+					r.Ob("C14.R3.overwrite", construct, posOf(p, st), good, "the terminal field can be written while it already holds the stream's terminal result: later Receive calls then return a different error than the first one did")
+				}
+			}
+		}
+	}
+	if n < 6 {
+		r.Undecide("C14.R3.overwrite: only %d writes of terminal fields found (expected >= 6)", n)
+	}
 }
